@@ -88,6 +88,10 @@ func evalStream(b []byte, reader string) (f *pbt.Fail) {
 	var r io.Reader
 	var br *bufio.Reader
 	switch reader {
+	case "bufio16":
+		br = bufio.NewReaderSize(bytes.NewReader(b), 16)
+	case "bufio24":
+		br = bufio.NewReaderSize(oneByte{bytes.NewReader(b)}, 24)
 	case "bufio32":
 		br = bufio.NewReaderSize(bytes.NewReader(b), 32)
 	case "bufio64":
@@ -150,7 +154,7 @@ func eval(c Case) *pbt.Fail {
 }
 
 var alphabet = []byte{'I', 'M', '*', 0x00, 'x'}
-var readers = []string{"bufio32", "bufio64", "bufio4096", "bufio8192", "plain", "onebyte", "half", "dataerr"}
+var readers = []string{"bufio16", "bufio24", "bufio32", "bufio64", "bufio4096", "bufio8192", "plain", "onebyte", "half", "dataerr"}
 
 // headers: both byte orders x two first-IFD values, each followed by 32 bytes that
 // themselves contain a later signature (which must never be the one reported).
@@ -244,6 +248,8 @@ type Far struct {
 	MM     bool   `json:"mm"`
 	Width  uint16 `json:"image_width"`
 	Entry  string `json:"entry"`
+	// Start > 0 (exif2.Parse only): the io.ReadSeeker handed over stands Start bytes into its data, behind another TIFF block
+	Start int `json:"start_offset,omitempty"`
 }
 
 func evalFar(c Far) (f *pbt.Fail) {
@@ -274,6 +280,20 @@ func evalFar(c Far) (f *pbt.Fail) {
 	var err error
 	switch c.Entry {
 	case "exif2.Parse":
+		if c.Start > 0 {
+			front := append(append([]byte{}, blk...), ent...)
+			bo.PutUint16(front[len(blk)+10:], ^c.Width) // a block in front of the starting position, with another width
+			front = append(front, bytes.Repeat([]byte{c.Fill}, c.Start)...)
+			rs := bytes.NewReader(append(front, b...))
+			if _, err = rs.Seek(int64(len(front)), io.SeekStart); err != nil {
+				return pbt.Failf("", "seek: %v", err)
+			}
+			e, err = exif2.Parse(rs)
+			if err != nil || e.ImageWidth != c.Width {
+				return pbt.Failf("far:start-offset", "exif2.Parse on a ReadSeeker standing at offset %d, TIFF header %d bytes further on: ImageWidth = %d, err %v; the block says %d (the block in front of the starting position says %d)", len(front), c.Prefix, e.ImageWidth, err, c.Width, ^c.Width)
+			}
+			return nil
+		}
 		e, err = exif2.Parse(bytes.NewReader(b))
 	case "DecodeHeif":
 		e, err = imagemeta.DecodeHeif(bytes.NewReader(b))
@@ -293,7 +313,13 @@ var chkFar = pbt.Check[Far]{Name: "tiff-header-search-far", Eval: evalFar, Gen: 
 	if c.Entry != "exif2.Parse" && c.Prefix > 0 && c.Prefix < 24 {
 		c.Prefix = 0 // (these entry points identify the image type from the first 24 bytes: a TIFF at offset 0, or an ftyp box)
 	}
-	rec.Case(c.Prefix > 4096, ev.HashS("far", fmt.Sprint(c)), "far-prefix>64KiB:"+fmt.Sprint(c.Prefix > 65536))
+	if c.Entry == "exif2.Parse" && rapid.IntRange(0, 2).Draw(rt, "prepositioned") == 0 {
+		c.Start = rapid.SampledFrom([]int{1, 7, 100, 4000, 4096, 5000}).Draw(rt, "start")
+		if c.Prefix > 70000 {
+			c.Prefix %= 5000
+		}
+	}
+	rec.Case(c.Prefix > 4096 || c.Start > 0, ev.HashS("far", fmt.Sprint(c)), "far-prefix>64KiB:"+fmt.Sprint(c.Prefix > 65536), "far-prepositioned-seeker:"+fmt.Sprint(c.Start > 0))
 	return c
 }}
 
@@ -304,12 +330,11 @@ func TestProp(t *testing.T) {
 	L := rec.Env.Pick(7, 10)
 	rec.Rule(fmt.Sprintf("exhaustive: every prefix over {I, M, *, 0x00, x} of length 0..%d in front of 4 header variants (II/MM x first-IFD 8 / 0x01020304, each followed by 32 bytes that contain later signatures), "+
 		"read through a 32-byte bufio.Reader and (every 7th case) a one-byte plain reader; also every such prefix alone followed by 40 filler bytes (no signature => ErrNoExif, unless the prefix itself holds one). "+
-		"random: prefixes of 0..8 KiB with lengths around 32/64/4096/8192, arbitrary bytes with sprinkled (partial) signatures, signature-free streams, signatures 24..40 bytes before the end; 8 reader kinds. "+
+		"random: prefixes of 0..8 KiB with lengths around 32/64/4096/8192, arbitrary bytes with sprinkled (partial) signatures, signature-free streams, signatures 24..40 bytes before the end; 10 reader kinds (caller's bufio.Reader of 16, 24, 32, 64, 4096, 8192 bytes - 16 is the smallest bufio makes - and plain readers delivering all / one byte / half / data+error). "+
 		"oracle: naive first-index scan written in the check; offset, byte order, first-IFD offset; caller's bufio.Reader left at the header; no signature => meta.ErrNoExif. "+
 		"non-trivial = the bytes before the reported header (or the whole signature-free stream) contain >= 2 leading signature bytes; distinct by (stream, reader)", L))
-	rec.Rule("far headers: a one-entry TIFF block behind 0 .. 3 MiB of signature-free filler (lengths on and around 4 KiB, 64 KiB, 128 KiB, 1 MiB) is decoded through exif2.Parse, DecodeTiff and DecodeHeif, which run the search themselves: the block's ImageWidth must come back")
+	rec.Rule("far headers: a one-entry TIFF block behind 0 .. 3 MiB of signature-free filler (lengths on and around 4 KiB, 64 KiB, 128 KiB, 1 MiB) is decoded through exif2.Parse, DecodeTiff and DecodeHeif, which run the search themselves: the block's ImageWidth must come back; a third of the exif2.Parse cases hand over an io.ReadSeeker that stands 1..5000 bytes into its data, behind another TIFF block (offsets count from where the stream stands)")
 	rec.Assume("a signature followed by fewer than 28 bytes is outside the property's precondition: nothing is asserted about such streams")
-	rec.Assume("caller-supplied bufio.Readers have size >= 32 (the search peeks 32 bytes)")
 	pbt.RegressDir(t, rec)
 	hs := headers()
 	filler := bytes.Repeat([]byte{'x'}, 40)
